@@ -114,3 +114,150 @@ binaries_list = st.lists(plist_dict, max_size=4)
 def v3_header_fields():
     sizes = dict(zip(kmodel.V3_HEADER_FIELDS, kmodel.V3_HEADER_SIZES))
     return st.fixed_dictionaries({k: (S.u64 if n == 8 else S.u32) for k, n in sizes.items()})
+
+
+# ---- v3 spec strategy
+
+from . import logs as _logs  # noqa: E402
+
+UNKNOWN_TAGS = [bytes([x, 0x80, 0, 0, 0, 0, 0, 0]) for x in (2, 3, 6, 7, 0x13, 0x21)] + [bytes([0x00, 0x21, 0, 0, 0, 0, 0, 0])]
+
+
+def ends_cleanly(fill, marker):
+    """the first occurrence of marker in fill+marker is the real one"""
+    return (fill + marker).find(marker) == len(fill)
+
+
+def marker_filler(marker, max_size=120):
+    """filler before `marker`: random bytes from an alphabet that cannot start the marker, partial markers in the
+    middle, and (often) a proper prefix of the marker right at the end -- always such that the first occurrence
+    of the marker is the real one (checked, not assumed)."""
+    def build(t):
+        body, tail_k, use_tail = t
+        out = body
+        if use_tail:
+            k = 1 + tail_k % (len(marker) - 1)
+            out += marker[:k]
+        return out
+    body = filler_with_partials(marker, max_size)
+    return st.tuples(body, st.integers(0, 64), st.booleans()).map(build).filter(lambda f: ends_cleanly(f, marker))
+
+
+def chunked(recs_strategy, max_chunks=6):
+    """split a record list into 1..k chunks at arbitrary points (empty chunks allowed)"""
+    def split(t):
+        recs, cuts = t
+        cuts = sorted(c % (len(recs) + 1) for c in cuts)
+        out, prev = [], 0
+        for c in cuts:
+            out.append(recs[prev:c])
+            prev = c
+        out.append(recs[prev:])
+        return out
+    ncuts = st.sampled_from([0, 1, 1, 2, 2, 3, 4, 5][:max_chunks + 2])
+    return ncuts.flatmap(lambda k: st.tuples(recs_strategy, st.lists(st.integers(0, 10 ** 6), min_size=k, max_size=k))).map(split)
+
+
+def big_records(lo=41, hi=260):
+    """many records in one draw (cheap): chunk sizes beyond the usual few dozen"""
+    return st.integers(lo, hi).flatmap(lambda k: st.binary(min_size=64 * k, max_size=64 * k)).map(
+        lambda b: [b[i:i + 64] for i in range(0, len(b), 64)])
+
+
+def v3_spec(max_events=80, max_n=30, with_logs=True, tids=None, records_strategy=None):
+    recs = records_strategy if records_strategy is not None else st.one_of(
+        st.lists(S.record64(), max_size=max_events), st.lists(S.record64(), min_size=min(4, max_events), max_size=min(16, max_events)),
+        *([big_records()] if max_events >= 80 else []))
+    codes_text = st.text(st.characters(min_codepoint=0x20, max_codepoint=0x7e), max_size=40).map(lambda s: s + '\n')
+
+    def with_table(table):
+        logrec = _logs.raw_record(table, tids=tids)
+        block = st.one_of(
+            st.tuples(st.just('dyld'), st.fixed_dictionaries({'Binaries': binaries_list}, optional={'Extra': plist_value})),
+            st.tuples(st.just('kexts'), st.fixed_dictionaries({'Binaries': binaries_list})),
+            st.tuples(st.just('codes'), codes_text),
+            st.tuples(st.just('unknown'), st.tuples(st.sampled_from(UNKNOWN_TAGS), st.binary(max_size=40)).map(list)),
+            *([st.tuples(st.just('logs'), st.lists(logrec, max_size=4))] * (2 if with_logs else 0)),
+        ).map(list)
+        return st.fixed_dictionaries({
+            'hdr': v3_header_fields(), 'cpu': plist_dict,
+            'filler1': marker_filler(kmodel.STACKSHOT_END), 'filler1_tag': st.booleans(),
+            'filler2': marker_filler(kmodel.TAG_THREADMAP), 'filler3': marker_filler(kmodel.TAG_EVENTS, 40),
+            'tm': threadmap(max_n),
+            'chunks': chunked(recs),
+            'more_fillers': st.lists(marker_filler(kmodel.TAG_EVENTS, 40), min_size=6, max_size=6),
+            'blocks': st.lists(block, max_size=7),
+            'processes': st.one_of(st.none(), plist_dict), 'images': st.one_of(st.none(), plist_dict),
+            'singles_pos': st.tuples(st.integers(0, 8), st.integers(0, 8), st.integers(0, 8)).map(list),
+            'table': st.just(table), 'strings_block': st.booleans(),
+            'xml': st.lists(st.booleans(), min_size=12, max_size=12),
+            'last_pad': st.booleans(),
+        })
+    return _logs.string_table().flatmap(with_table)
+
+
+def _dumps(obj, xml):
+    fmt = plistlib.FMT_XML if xml else plistlib.FMT_BINARY
+    try:
+        blob = plistlib.dumps(obj, fmt=fmt)
+        if plistlib.loads(blob) == obj:
+            return blob
+    except Exception:  # noqa
+        pass
+    return plistlib.dumps(obj, fmt=plistlib.FMT_BINARY)
+
+
+def v3_layout(spec):
+    """-> (blocks [(tag, payload)], ordered description used by the expectations)"""
+    table = spec['table']
+    seq = [list(b) for b in spec['blocks']]
+    has_logs = any(k == 'logs' and v for k, v in seq)
+    singles = []
+    if spec['processes'] is not None:
+        singles.append(['processes', spec['processes']])
+    if spec['images'] is not None:
+        singles.append(['images', spec['images']])
+    if has_logs or spec['strings_block']:
+        singles.append(['strings', {s: i for i, s in table}])
+    for (kind, val), pos in zip(singles, spec['singles_pos']):
+        seq.insert(pos % (len(seq) + 1), [kind, val])
+    blocks = []
+    xml = list(spec['xml'])
+    for i, (kind, val) in enumerate(seq):
+        x = xml[i % len(xml)]
+        if kind == 'dyld':
+            blocks.append((kmodel.TAG_DYLD, _dumps(val, x)))
+        elif kind == 'kexts':
+            blocks.append((kmodel.TAG_KEXTS, _dumps(val, x)))
+        elif kind == 'codes':
+            blocks.append((kmodel.TAG_CODES, val.encode()))
+        elif kind == 'unknown':
+            blocks.append((bytes(val[0]), bytes(val[1])))
+        elif kind == 'logs':
+            blocks.append((kmodel.TAG_LOGS, _dumps({'Events': [_logs.realize(r, table) for r in val]}, x)))
+        elif kind == 'processes':
+            blocks.append((kmodel.TAG_PROCESSES, _dumps(val, x)))
+        elif kind == 'images':
+            blocks.append((kmodel.TAG_IMAGES, _dumps(val, x)))
+        elif kind == 'strings':
+            blocks.append((kmodel.TAG_STRINGS, _dumps({'StringIndex': val}, x)))
+    return blocks, seq
+
+
+def build_v3(spec):
+    blocks, _ = v3_layout(spec)
+    f1 = spec['filler1']
+    if spec.get('filler1_tag'):
+        f1 = kmodel.TAG_THREADMAP + f1      # the thread-map tag "appears randomly in the stackshot"
+    chunks = spec['chunks']
+    return kmodel.v3_file(spec['hdr'], _dumps(spec['cpu'], False), f1, spec['filler2'] , [tuple(t) for t in spec['tm']],
+                          chunks, spec['more_fillers'][:max(0, len(chunks) - 1)], blocks, last_pad=spec['last_pad'],
+                          filler3=spec.get('filler3', b''))
+
+
+def v3_all_records(spec):
+    return [r for ch in spec['chunks'] for r in ch]
+
+
+def v3_all_logs(spec):
+    return [r for k, v in spec['blocks'] if k == 'logs' for r in v]
